@@ -12,6 +12,7 @@ from __future__ import annotations
 from ..facts import AnalysisError
 from ..terms import const, show, strip_sites
 from ..util import InlineOnly, NoInline, P, calls_to, engine, loc, param_at
+from .derived import cache_coherence
 from .ordering import (arming, cancel_on_removal, every_removal_reported, PROTO, TS, Ctx, atomic_notifications, expiry_once, reboot_before_entries, reject_before_record)
 
 INST = "sd.ServiceInstance"
@@ -20,6 +21,8 @@ SUB = "sd.EventgroupSubscription"
 
 
 def check(run, prog, tier):
+    # the record of live subscriptions is the store itself, not a cached view of it
+    cache_coherence(run, prog, "N5", ['sd.ServiceInstance', 'sd.TimedStore'])
     run.explanation = (
         "Same ATOMIC template as C05 for ServiceInstance.subscriptions (the TimedStore code is shared, the other "
         "allocation site binds listener.client_subscribed / client_unsubscribed).  Reject-before-record is a path "
